@@ -200,7 +200,13 @@ def run_wrapper(case):
             # generator): "also when they fail" covers every way the wrapped computation can be left
             "KeyboardInterrupt": KeyboardInterrupt, "SystemExit": SystemExit, "GeneratorExit": GeneratorExit}
 
-    def body(*args):
+    depth = case.get("depth", 0)
+
+    def body(level=0):
+        if level > 0:
+            # the wrapped function is entered again while it is running: through the SAME decorated object (recursion)
+            # or through another decoration of the same function with the same size
+            return (wrapped if case.get("same", True) else S.use_mc_sample_size(pv_to_py(case["size"], enums()))(body))(level - 1)
         if case["inner"] is not None:
             q.set_monte_carlo_sample_size(pv_to_py(case["inner"], enums()))
         if case["raises"]:
@@ -209,7 +215,8 @@ def run_wrapper(case):
 
     before = observe()
     try:
-        S.use_mc_sample_size(pv_to_py(case["size"], enums()))(body)()
+        wrapped = S.use_mc_sample_size(pv_to_py(case["size"], enums()))(body)
+        wrapped(depth)
         e = None
     except BaseException as ex:  # noqa
         e = exn_name(ex)
@@ -267,8 +274,8 @@ def coq_session(fresh, hist):
 
 
 def coq_wrapper_case(case, e, obs):
-    return "({}, {}, {}, {}, {}, {})".format(
-        coq_list([coq_op(o) for o in case["start"]]), ipv(case["size"]),
+    return "({}, {}, {}%nat, {}, {}, {}, {})".format(
+        coq_list([coq_op(o) for o in case["start"]]), ipv(case["size"]), case.get("depth", 0),
         coq_option(case["inner"], ipv), coq_exn(case["raises"]), coq_exn(e), coq_store(obs))
 
 
@@ -280,6 +287,7 @@ def gen_wrapper_case(rng):
     return {"start": gen_history(rng, rng.randrange(0, 4)),
             "size": rng.choice([["int", 10], ["int", 10000], ["int", 1], ["int", 0], ["int", -5], ["str", "10"],
                                 ["float", (2.5).hex()], ["bool", True]]),
+            "depth": rng.choice([0, 0, 1, 2, 3]), "same": rng.random() < 0.7,
             "inner": rng.choice([None, None, ["int", 77], ["int", -1]]),
             "raises": rng.choice([None, None, "ValueError", "TypeError", "OtherError", "KeyError",
                                   "KeyboardInterrupt", "SystemExit", "GeneratorExit"])}
@@ -435,8 +443,9 @@ def check_wrapper_oracle(case):
     before, e, after = run_wrapper(case)
     b, a = dict((k, v) for k, v in before), dict((k, v) for k, v in after)
     if b["monte_carlo_sample_size"] != a["monte_carlo_sample_size"]:
-        return "use_mc_sample_size({}) around a function that {}: sample size {} before, {} after".format(
+        return "use_mc_sample_size({}) around a function that {}{}: sample size {} before, {} after".format(
             case["size"], "raises " + case["raises"] if case["raises"] else "returns",
+            " after entering itself {} more time(s)".format(case["depth"]) if case.get("depth") else "",
             b["monte_carlo_sample_size"], a["monte_carlo_sample_size"])
     return None
 
